@@ -74,6 +74,12 @@ def post_binarize(old, result, exc, args, kw):
     marked = all(k.head is not None for n in wide for k in n.children)
     unmarked = wide and all(k.head is None for n in before.nodes()
                             for k in n.children)
+    spec = (Cur.case or {}).get('spec') if Cur.case else None
+    if wide and spec is not None and Cur.case.get('kind') == 'binarize' \
+            and not any('h' in n for n in gen.walk(spec['root'])):
+        # by provenance: nothing ever marked a head in this tree (it comes
+        # from the Tree API or from a reader and went straight to binarize)
+        unmarked = True
     if unmarked:
         if isinstance(exc, ValueError):
             Cur.ctx.stratum('binarize: unmarked rejected')
@@ -281,7 +287,9 @@ def decorate_labels(rng, spec):
 
 def run_binarize(ctx, case, rng):
     Cur.ctx, Cur.case = ctx, case
-    live = common.live_tree(ctx, case['spec'], rng)
+    # trees that nothing ever head-marked come from a reader half of the time
+    live = common.live_tree(ctx, case['spec'], rng,
+                            via=0.5 if case.get('unmarked') else None)
     try:
         with common.captured():
             ctx.R.transform.binarize(live, **case.get('params', {}))
@@ -360,10 +368,11 @@ def shard(ctx):
         unmarked = rng.random() < 0.08
         if not unmarked:
             gen.assign_heads(rng, spec, rng.choice(['random', 'first', 'last']))
-        table = decorate_labels(rng, spec)
+        table = decorate_labels(rng, spec) \
+            if not unmarked or rng.random() < 0.5 else {}
         params = {'bare_bin_labels': True} if rng.random() < 0.4 else {}
         run_binarize(ctx, {'kind': 'binarize', 'spec': spec, 'params': params,
-                           'nocoindex': table}, rng)
+                           'nocoindex': table, 'unmarked': unmarked}, rng)
         if i < 2:
             ctx.sample({'binarize': model.show(model.from_spec(spec['root']), '')})
     for i in ctx.indices(ctx.pick(4000, 1000000)):
